@@ -181,10 +181,20 @@ func (s *Store) handleMergeCommand(merge *pb.MergeCommand) error {
 	if !ok {
 		return fmt.Errorf("raftstore: source region %d not found", merge.GetSourceRegionId())
 	}
+	if sourceMeta.ID == parentMeta.ID {
+		return fmt.Errorf("raftstore: cannot merge region %d into itself", parentMeta.ID)
+	}
 	updated := parentMeta
 	updated.Epoch.Version++
-	if len(sourceMeta.EndKey) == 0 || bytes.Compare(sourceMeta.EndKey, updated.EndKey) > 0 {
+	switch {
+	case len(parentMeta.EndKey) > 0 && bytes.Equal(parentMeta.EndKey, sourceMeta.StartKey):
+		// Source is the right neighbour: the target grows at its end.
 		updated.EndKey = append([]byte(nil), sourceMeta.EndKey...)
+	case len(sourceMeta.EndKey) > 0 && bytes.Equal(sourceMeta.EndKey, parentMeta.StartKey):
+		// Source is the left neighbour: the target grows at its start.
+		updated.StartKey = append([]byte(nil), sourceMeta.StartKey...)
+	default:
+		return fmt.Errorf("raftstore: merge source region %d is not adjacent to target region %d", sourceMeta.ID, parentMeta.ID)
 	}
 	if err := s.UpdateRegion(updated); err != nil {
 		return err
